@@ -1055,8 +1055,18 @@ fn sweep_real(case: &SweepCase) -> (String, Option<Primitive>, Option<Primitive>
                     Err(e) => return format!("rerr2 {} ({}) written form {}", err_chain(&e), e, show_plain(&p1)),
                 };
                 let mut up2 = RecUpdater::new(CREATED_BASE);
+                // a written stream is compared with its data, not only by its dictionary
+                fn with_data(p: &Primitive, r: &impl Resolve) -> String {
+                    match p {
+                        Primitive::Stream(s) => match s.raw_data(r) {
+                            Ok(d) => format!("{}~{}", show_plain(p), hex(&d)),
+                            Err(_) => format!("{}~?", show_plain(p)),
+                        },
+                        q => show_plain(q),
+                    }
+                }
                 match x2.to_primitive(&mut up2) {
-                    Ok(p2) => format!("ok {} {}", show_plain(&p1), show_plain(&p2)),
+                    Ok(p2) => format!("ok {} {}", with_data(&p1, r), with_data(&p2, r)),
                     Err(e) => format!("werr2 {}", e),
                 }
             }))
